@@ -93,6 +93,31 @@ inductive Outcome where
   | crash (what : String)
 deriving Repr
 
+/-- the part of `decompose_and_order` after the scaffold graph is built: census, traversal from the first element of degree
+    one, SN test, orientation by reference offsets, numbering -/
+def finishScaffold (s : Scaffold) (aps : List V) (so : V → Option Int) (sn : V → Option String) : Outcome :=
+  let deg (e : Elt) := (s.nbrs e).length
+  let one := s.elts.filter (fun e => deg e == 1)
+  let two := s.elts.filter (fun e => deg e == 2)
+  if one.length != 2 then .skipped .degreeOne
+  else if two.length != s.elts.length - 2 then .skipped .degreeTwo
+  else
+    let trav := scaffoldDfs s (one.headD (Elt.bubble 0))
+    let scaf := trav.filterMap (fun e => match e with | .scaffold id => some id | _ => none)
+    if ((scaf.map sn).eraseDups).length != 1 then .skipped .mixedSN
+    else
+      match scaf.mapM so with
+      | none => .crash "SO missing"
+      | some coords =>
+        let rev := match coords.head?, coords.getLast? with
+          | some a, some b => decide (a > b)
+          | _, _ => false
+        let trav := if rev then trav.reverse else trav
+        let coords := if rev then coords.reverse else coords
+        if !(List.zip coords coords.tail).all (fun p => decide (p.1 < p.2)) then .skipped .notIncreasing
+        else
+          .ok ⟨aps, s.bubbles.flatten, numberChain s trav, trav.length, s.bubbles.length⟩
+
 def decompose (nb : V → List V) (comp : List V) (so : V → Option Int) (sn : V → Option String) : Outcome :=
   match comp with
   | [v] => .ok ⟨[v], [], [(v, 0, 0)], 1, 0⟩
@@ -101,28 +126,7 @@ def decompose (nb : V → List V) (comp : List V) (so : V → Option Int) (sn : 
     let (blocks, aps) := biccsFrom nb root (biccFuel nb comp)
     match buildScaffold blocks (sortStrings aps) with
     | .error e => .skipped e
-    | .ok s =>
-      let deg (e : Elt) := (s.nbrs e).length
-      let one := s.elts.filter (fun e => deg e == 1)
-      let two := s.elts.filter (fun e => deg e == 2)
-      if one.length != 2 then .skipped .degreeOne
-      else if two.length != s.elts.length - 2 then .skipped .degreeTwo
-      else
-        let trav := scaffoldDfs s (one.headD (Elt.bubble 0))
-        let scaf := trav.filterMap (fun e => match e with | .scaffold id => some id | _ => none)
-        if ((scaf.map sn).eraseDups).length != 1 then .skipped .mixedSN
-        else
-          match scaf.mapM so with
-          | none => .crash "SO missing"
-          | some coords =>
-            let rev := match coords.head?, coords.getLast? with
-              | some a, some b => decide (a > b)
-              | _, _ => false
-            let trav := if rev then trav.reverse else trav
-            let coords := if rev then coords.reverse else coords
-            if !(List.zip coords coords.tail).all (fun p => decide (p.1 < p.2)) then .skipped .notIncreasing
-            else
-              .ok ⟨aps, s.bubbles.flatten, numberChain s trav, trav.length, s.bubbles.length⟩
+    | .ok s => finishScaffold s aps so sn
 
 /-- `count_sn` + majority vote of `name_comps`; `counts` in first-seen order over the component as enumerated;
     `if most_freq <= count` lets a later tag with an equal count win -/
